@@ -59,6 +59,11 @@ impl Rng {
     pub fn f64(&mut self) -> f64 {
         (self.next() >> 11) as f64 / (1u64 << 53) as f64
     }
+    /// between lo and hi random bytes
+    pub fn rbytes(&mut self, lo: usize, hi: usize) -> Vec<u8> {
+        let n = self.usize(lo, hi);
+        self.bytes(n)
+    }
     pub fn bytes(&mut self, n: usize) -> Vec<u8> {
         let mut v = Vec::with_capacity(n);
         while v.len() < n {
